@@ -254,6 +254,21 @@ def balanceLayouts (g : G) (xcs : List (Array Rat)) : Array Rat :=
     let xs := ((List.range 4).map fun i => (xcs.getD i #[]).getD n 0 + shift i).mergeSort (· ≤ ·)
     (xs.getD 1 0 + xs.getD 2 0) / 2).toArray
 
+/-- the final pass over neighbours: push a node whose left edge lies inside its left neighbour -/
+def bkPush (ns : Rat) (g : G) (p : Nat × Nat) : G :=
+  let nv := g.node p.1
+  let nw := g.node p.2
+  if nw.x > nv.x && nw.x < nv.x + nv.w then g.modNode p.2 fun nd => { nd with x := nv.x + nv.w + ns } else g
+
+/-- writing the chosen coordinates: x per node, layer heights, left margin, neighbour pass -/
+def bkWrite (ns : Rat) (g : G) (final : Array Rat) : G :=
+  let layered := g.layers.toList.flatMap (·.nodes)
+  let xs := layered.map fun n => final.getD n 0
+  let g := growAllH (placeAll g [(layered, xs)])
+  let lmargin := xs.foldl minRat 0
+  let g := if lmargin < 0 then { g with nodes := g.nodes.map fun nd => { nd with x := nd.x - lmargin } } else g
+  g.layers.toList.foldl (fun g l => (l.nodes.zip l.nodes.tail).foldl (bkPush ns) g) g
+
 /-- `execBrandesKoepf`; forced = params.BrandesKoepfLayout -/
 def execBrandesKoepf (forced : Int) (ns : Rat) (g : G) : M G := do
   let (nbUp, nbDown) := bkNeighbors g
@@ -271,18 +286,7 @@ def execBrandesKoepf (forced : Int) (ns : Rat) (g : G) : M G := do
       else
         (xcs.foldl (fun (acc : Array Rat × Rat) xc =>
           if verifyLayout g xc ns && (xcSize g xc).1 < acc.2 then (xc, (xcSize g xc).1) else acc) (bal, (xcSize g bal).1)).1
-  let layered := g.layers.toList.flatMap (·.nodes)
-  let xs := layered.map fun n => final.getD n 0
-  let g := growAllH (placeAll g [(layered, xs)])
-  let lmargin := xs.foldl minRat 0
-  let g := if lmargin < 0 then { g with nodes := g.nodes.map fun nd => { nd with x := nd.x - lmargin } } else g
-  -- the final pass over neighbours: push a node whose left edge lies inside its left neighbour
-  let g := g.layers.toList.foldl (fun g l =>
-    (l.nodes.zip l.nodes.tail).foldl (fun g (v, w) =>
-      let nv := g.node v
-      let nw := g.node w
-      if nw.x > nv.x && nw.x < nv.x + nv.w then g.modNode w fun nd => { nd with x := nv.x + nv.w + ns } else g) g) g
-  pure g
+  pure (bkWrite ns g final)
 
 end BK
 end Autog
